@@ -21,7 +21,7 @@ ASSUMPTIONS = [
     'sensitivities of point-mass (pooled/heterogeneous) dimensions are only required to be consistent between the '
     'separate and the hierarchical return form and to equal the hierarchical derivative in the reduced form']
 REQUIRED = ['kind:gauss', 'kind:lognorm', 'kind:trunc', 'kind:pooled', 'kind:hetero', 'cov', 'comp', 'red',
-            'layout:matrix', 'layout:tensor', 'upstream', 'noncentered', 'oos']
+            'layout:matrix', 'layout:tensor', 'upstream', 'noncentered', 'oos', 'noncentered_zero_scale']
 
 
 @st.composite
@@ -40,13 +40,16 @@ def _spec(draw):
         pop, theta = popgen.draw_reduced(draw, pop, n_ids, cov)
     else:
         theta = popgen.draw_theta(draw, pop, n_ids, cov)
+    zero = False
+    if pop['kind'] != 'red':
+        theta, zero = popgen.zero_scale(draw, pop, n_ids, theta, p=0.3)
     n_dim = ref.pop_n_dim(pop)
     z = draw(gen.mat(gen.real(-3, 3), n_ids, n_dim))
     U = draw(gen.mat(gen.real(-3, 3), n_ids, n_dim)) if gen.chance(draw, 0.5) else None
     oos = None
     if pop['kind'] in ('gauss', 'lognorm', 'trunc') and pop.get('centered', True) and gen.chance(draw, 0.1):
         oos = draw(st.integers(0, n_dim - 1))
-    return dict(pop=pop, n_ids=n_ids, theta=theta, z=z, cov=cov, U=U, layout=layout, oos=oos)
+    return dict(pop=pop, n_ids=n_ids, theta=theta, z=z, cov=cov, U=U, layout=layout, oos=oos, zero_scale=zero)
 
 
 def strategy(tier):
@@ -67,6 +70,8 @@ def classify(spec):
         labs.append('upstream')
     if spec['oos'] is not None:
         labs.append('oos')
+    if spec.get('zero_scale'):
+        labs.append('noncentered_zero_scale')
     return sorted(set(labs))
 
 
